@@ -19,11 +19,11 @@ package config
 //  G1  secret position x hostile value (value = marker ++ hostile ++ marker)
 //  G2  carrier position x hostile value (a poison in any non-secret string / list element)
 //  G3  every string location = the same hostile value (secrets marker-wrapped)
-//  G4  list lengths 1..3 x index of the hostile secret (part of G1 through the positions)
-//  G5  generated values: every string of length 1..2 (thorough 1..3) over a 16-character
+//  G4  independent list lengths 0..3 for listeners, peers and SOCKS5 users (64 shapes), every secret benign
+//  G5  generated values: every string of length 1..2 (thorough 1..3, and 1..4 at two positions) over a 16-character
 //      hostile alphabet, in the wraps {M v M, v M, M v} at three secret positions and bare at
 //      two carrier positions
-//  G6  (thorough) secret position x hostile value x carrier position x structure-breaking value
+//  G6  (thorough) secret position x structure-breaking value x carrier position x structure-breaking value
 //
 // Oracle (the statement): String() and every string reachable in Redacted() contain no
 // configured secret: the marker must not occur (a) in the raw text, (b) in any scalar of the
@@ -79,12 +79,19 @@ func c35Walk(v reflect.Value, path string, out *[]c35Loc) {
 }
 
 // c35Build makes the populated base configuration: n entries in the three lists that carry secrets.
-func c35Build(n int) *Config {
+func c35Build(n int) *Config { return c35BuildLens(n, n, n) }
+
+// c35BuildLens: nl listeners, np peers, nu SOCKS5 users.
+func c35BuildLens(nl, np, nu int) *Config {
 	c := Default()
-	for i := 0; i < n; i++ {
+	for i := 0; i < nl; i++ {
 		c.Listeners = append(c.Listeners, ListenerConfig{Transport: "quic", Address: fmt.Sprintf("0.0.0.0:%d", 4000+i), Path: "/l"})
+	}
+	for i := 0; i < np; i++ {
 		c.Peers = append(c.Peers, PeerConfig{ID: strings.Repeat("ab", 16), Transport: "ws", Address: fmt.Sprintf("peer%d:443", i), Path: "/p", Proxy: "http://proxy:3128",
 			ProxyAuth: ProxyAuth{Username: "proxyuser"}})
+	}
+	for i := 0; i < nu; i++ {
 		c.SOCKS5.Auth.Users = append(c.SOCKS5.Auth.Users, SOCKS5UserConfig{Username: fmt.Sprintf("user%d", i)})
 	}
 	c.Exit.Routes = []string{"10.0.0.0/8"}
@@ -125,7 +132,15 @@ type c35Set struct {
 type c35Case struct {
 	N    int      `json:"lists"`
 	Sets []c35Set `json:"sets"`
-	All  []byte   `json:"all,omitempty"` // G3: every location gets this value
+	All  []byte   `json:"all,omitempty"`  // G3: every location gets this value
+	Lens []int    `json:"lens,omitempty"` // G4: listeners, peers, users (overrides N)
+}
+
+func (cs c35Case) build() *Config {
+	if len(cs.Lens) == 3 {
+		return c35BuildLens(cs.Lens[0], cs.Lens[1], cs.Lens[2])
+	}
+	return c35Build(cs.N)
 }
 
 func (cs c35Case) describe() string {
@@ -199,7 +214,7 @@ func c35Class(path string) string { return c35Index.ReplaceAllString(path, "[]")
 
 func c35Run(r *vmc.Result, cs c35Case, grid, valLabel string) {
 	r.Add("evaluations", 1)
-	cfg, twin := c35Build(cs.N), c35Build(cs.N)
+	cfg, twin := cs.build(), cs.build()
 	if !cs.apply(cfg) || !cs.apply(twin) {
 		r.HarnessError("case refers to a location that does not exist: %+v", cs)
 		return
@@ -376,9 +391,20 @@ func TestVerif_C35(t *testing.T) {
 			}
 		}
 	}
+	// G4: independent list lengths, every secret benign: each index of each list must be redacted
+	for nl := 0; nl <= 3; nl++ {
+		for np := 0; np <= 3; np++ {
+			for nu := 0; nu <= 3; nu++ {
+				if mine() {
+					c35Run(r, c35Case{Lens: []int{nl, np, nu}}, "G4-lengths", fmt.Sprintf("lens-%d-%d-%d", nl, np, nu))
+					r.Add("g4_cases", 1)
+				}
+			}
+		}
+	}
 	// G5: generated values
 	alpha := []string{" ", "\n", "\t", "\r", ":", "#", "-", "'", "\"", "|", ">", "a", "\x00", "\u0085", " ", "\xff"}
-	maxLen := vmc.Pick(r, 2, 3)
+	maxLen := vmc.Pick(r, 2, 4) // length 4 (thorough) only in the wrap "v ++ marker" at one list-item secret and at one carrier
 	r.Info["generated_alphabet"] = fmt.Sprintf("%q", alpha)
 	r.Info["generated_max_len"] = maxLen
 	secretSpots := []string{"Agent.PrivateKey", "Peers[1].TLS.KeyPEM", "SOCKS5.Auth.Users[2].Password"}
@@ -395,13 +421,18 @@ func TestVerif_C35(t *testing.T) {
 				v := sb.String()
 				label := "generated" // one fingerprint per location class; the value is in the replay artefact
 				_ = v
-				for _, sp := range secretSpots {
-					for wi, w := range [][]byte{[]byte(c35Marker + "g-" + v + c35Marker + "e"), []byte(v + c35Marker + "e"), []byte(c35Marker + "g-" + v)} {
-						c35Run(r, c35Case{N: 3, Sets: []c35Set{{sp, w}}}, fmt.Sprintf("G5-secret-wrap%d", wi), label)
+				if l <= 3 {
+					for _, sp := range secretSpots {
+						for wi, w := range [][]byte{[]byte(c35Marker + "g-" + v + c35Marker + "e"), []byte(v + c35Marker + "e"), []byte(c35Marker + "g-" + v)} {
+							c35Run(r, c35Case{N: 3, Sets: []c35Set{{sp, w}}}, fmt.Sprintf("G5-secret-wrap%d", wi), label)
+						}
 					}
-				}
-				for _, cp := range carrierSpots {
-					c35Run(r, c35Case{N: 3, Sets: []c35Set{{cp, []byte(v)}}}, "G5-carrier", label)
+					for _, cp := range carrierSpots {
+						c35Run(r, c35Case{N: 3, Sets: []c35Set{{cp, []byte(v)}}}, "G5-carrier", label)
+					}
+				} else {
+					c35Run(r, c35Case{N: 3, Sets: []c35Set{{secretSpots[1], []byte(v + c35Marker + "e")}}}, "G5-secret-wrap1", label)
+					c35Run(r, c35Case{N: 3, Sets: []c35Set{{carrierSpots[1], []byte(v)}}}, "G5-carrier", label)
 				}
 				r.Add("g5_values", 1)
 				if samples < 3 && l == 2 {
@@ -435,15 +466,15 @@ func TestVerif_C35(t *testing.T) {
 				breaking = append(breaking, hv)
 			}
 		}
-		for _, p := range locsOf[2].secrets {
+		for _, p := range locsOf[1].secrets {
 			if r.Expired() {
 				break
 			}
-			for _, hv := range hostile {
-				for _, cp := range locsOf[2].carriers {
+			for _, hv := range breaking {
+				for _, cp := range locsOf[1].carriers {
 					for _, bv := range breaking {
 						if mine() {
-							c35Run(r, c35Case{N: 2, Sets: []c35Set{{p, wrap(hv.v)}, {cp, []byte(bv.v)}}}, "G6-pair", hv.label+"+"+bv.label)
+							c35Run(r, c35Case{N: 1, Sets: []c35Set{{p, wrap(hv.v)}, {cp, []byte(bv.v)}}}, "G6-pair", "pair-with-"+bv.label)
 							r.Add("g6_cases", 1)
 						}
 					}
